@@ -843,6 +843,34 @@ static void mode_cmp(int lo, int hi, int step, int win, int nrand)
 	}
 }
 
+/* times of day down to the nanosecond: dt_tcmp must be the order of <<h, m, s, ns>> (the comparison behind time-only expressions and bounds) */
+static void mode_tcmp(void)
+{
+	static const int hs[] = {0, 1, 9, 10, 12, 23}, ms[] = {0, 1, 30, 59}, ss[] = {0, 1, 59};
+	static const unsigned int ns[] = {0, 1, 2, 499999999, 500000000, 999999998, 999999999};
+	struct dt_t_s v[6 * 4 * 3 * 7];
+	long long k[6 * 4 * 3 * 7];
+	int n = 0;
+	KEY(kt, "cmp time-of-day");
+	for (unsigned a = 0; a < 6; a++) for (unsigned b_ = 0; b_ < 4; b_++) for (unsigned c = 0; c < 3; c++) for (unsigned d = 0; d < 7; d++) {
+		struct dt_t_s t = {DT_TUNK};
+		t.typ = DT_HMS;
+		t.hms.h = hs[a]; t.hms.m = ms[b_]; t.hms.s = ss[c]; t.hms.ns = ns[d];
+		v[n] = t;
+		k[n++] = ((hs[a] * 60LL + ms[b_]) * 60 + ss[c]) * 1000000000LL + ns[d];
+	}
+	for (int i = 0; i < n; i++) {
+		for (int j = 0; j < n; j++) {
+			int c = dt_tcmp(v[i], v[j]), want = (k[i] > k[j]) - (k[i] < k[j]);
+			ev(kt);
+			if (c != want) {
+				mism(kt, 0, "dt_tcmp(%02d:%02d:%02d.%09u, %02d:%02d:%02d.%09u) = %d want %d", (int)v[i].hms.h, (int)v[i].hms.m, (int)v[i].hms.s,
+				     (unsigned)v[i].hms.ns, (int)v[j].hms.h, (int)v[j].hms.m, (int)v[j].hms.s, (unsigned)v[j].hms.ns, c, want);
+			}
+		}
+	}
+}
+
 
 /* ------------------------------------------------------------------ C11 */
 static const int SODS[] = {0, 1, 59, 60, 3599, 3600, 43199, 43200, 86398, 86399};
@@ -1055,6 +1083,7 @@ int main(int argc, char *argv[])
 		mode_biz(lo, hi, step, a1 ? a1 : 70);
 	} else if (!strcmp(mode, "cmp")) {
 		mode_cmp(lo, hi, step, a1 ? a1 : 40, a2);
+		mode_tcmp();
 	} else if (!strcmp(mode, "clock")) {
 		mode_clock(lo, hi, step, a1);
 	} else if (!strcmp(mode, "trace")) {
